@@ -103,8 +103,9 @@ open Spec.HtmlAllow
 the spec's list — minus `mx-reply` under reply-fallback removal. -/
 theorem plain_elemOk_spec (m : Mode) (rrf : Bool) (n : Str) :
     elemOk lists (plain (some m) rrf) n = (elemAllowed n && !(rrf && n == replyName)) := by
-  simp [elemOk, elemRemoved, elemListed, plain, optContains, isOverride, Cfg.useStrict, lists,
-    elemAllowed, Bool.and_comm]
+  simp only [elemOk, elemRemoved, elemListed, plain, optContains, isOverride, Cfg.useStrict, lists,
+    elemAllowed, Option.isSome_some, Option.map_none, Option.isSome_none, Bool.false_or, Bool.not_true,
+    Bool.not_false, Bool.true_and, Bool.and_comm]
 
 /-- … the allowed attributes are the spec's rows. -/
 theorem plain_attrOk_spec (m : Mode) (rrf : Bool) (el a : Str) :
@@ -115,21 +116,29 @@ theorem plain_attrOk_spec (m : Mode) (rrf : Bool) (el a : Str) :
   cases mapGet Spec.HtmlAllow.attrs el <;> simp
 
 /-- … the value restrictions are the spec's scheme lists (`matrix:` only in compat mode). -/
+theorem plain_schemeList_spec (m : Mode) (rrf : Bool) (el a : Str) :
+    Spec.HtmlPolicy.schemeList lists (plain (some m) rrf) el a = Spec.HtmlAllow.schemeList m el a := by
+  cases m <;>
+  simp [Spec.HtmlPolicy.schemeList, plain, schemeCtx, attrSchemes, isOverride, Cfg.useStrict,
+      Cfg.useCompat, lists, Spec.HtmlAllow.schemeList]
+
+/-- … the value restrictions are the spec's scheme lists (`matrix:` only in compat mode). -/
 theorem plain_valueOk_spec (m : Mode) (rrf : Bool) (el a v : Str) :
     valueOk lists (plain (some m) rrf) el a v = valueAllowed m el a v := by
-  simp only [valueOk, denied, schemeList, plain, schemeCtx, attrSchemes, isOverride, Cfg.useStrict,
-    Cfg.useCompat, lists, valueAllowed, Spec.HtmlAllow.schemeList, Option.bind_none, schemesHit,
-    Option.isNone_none, Option.isSome_some, Bool.not_true, Bool.and_false, Bool.false_eq_true,
-    if_false, Bool.not_false, Bool.true_and, if_true, Option.getD_none, List.nil_append]
-  cases m <;>
-  cases (mapGet schemesStrict el).bind (mapGet · a) <;>
-  cases (mapGet schemesCompat el).bind (mapGet · a) <;>
-  simp [schemesPass, startsWithScheme] <;> rfl
+  unfold valueOk valueAllowed
+  rw [plain_schemeList_spec]
+  have : denied (plain (some m) rrf) el a v = false := by simp [denied, plain, schemesHit]
+  rw [this]
+  cases Spec.HtmlAllow.schemeList m el a with
+  | none => simp [schemesPass]
+  | some l => simp only [schemesPass, Bool.not_false, Bool.true_and]; rfl
 
 /-- … the allowed classes are `language-*` on `code`. -/
 theorem plain_classOk_spec (m : Mode) (rrf : Bool) (el cl : Str) :
     classOk lists (plain (some m) rrf) el cl = classAllowed el cl := by
-  simp [classOk, plain, isOverride, Cfg.useStrict, lists, classAllowed, row, removedClass]
+  simp only [classOk, plain, isOverride, Cfg.useStrict, lists, classAllowed, row, removedClass,
+    Option.bind_none, Option.isSome_none, Option.isSome_some, Bool.or_true, Bool.not_true,
+    Bool.false_or, Bool.not_false, Bool.true_and, if_true, Option.getD_none, List.nil_append]
 
 /-- … the maximum depth is 100. -/
 theorem plain_maxDepth_spec (m : Mode) (rrf : Bool) :
@@ -139,16 +148,23 @@ theorem plain_maxDepth_spec (m : Mode) (rrf : Bool) :
 theorem plain_class_unrestricted (m : Mode) (rrf : Bool) (el v : Str) :
     valueOk lists (plain (some m) rrf) el className v = true := by
   rw [plain_valueOk_spec]
-  simp only [valueAllowed, Spec.HtmlAllow.schemeList]
   have h1 : ∀ el, (mapGet schemesStrict el).bind (mapGet · className) = none := by
     intro el
-    simp only [schemesStrict, mapGet]
-    split <;> simp_all [mapGet, className, bs] <;> (split <;> simp_all [mapGet, bs])
+    by_cases ha : el = bs "a"
+    · subst ha; decide
+    · by_cases hi : el = bs "img"
+      · subst hi; decide
+      · have : mapGet schemesStrict el = none := by
+          simp [schemesStrict, mapGet, Ne.symm ha, Ne.symm hi]
+        simp [this]
   have h2 : ∀ el, (mapGet schemesCompat el).bind (mapGet · className) = none := by
     intro el
-    simp only [schemesCompat, mapGet]
-    split <;> simp_all [mapGet, className, bs]
-  cases m <;> simp [h1, h2]
+    by_cases ha : el = bs "a"
+    · subst ha; decide
+    · have : mapGet schemesCompat el = none := by simp [schemesCompat, mapGet, Ne.symm ha]
+      simp [this]
+  simp only [valueAllowed, Spec.HtmlAllow.schemeList, h1, h2]
+  cases m <;> simp
 
 /-- The property, in the spec's words, for `sanitize_html(_, mode, reply_fallback)`: every element
 of the output is on the spec's list (and is not `mx-reply` under reply-fallback removal), every
